@@ -459,6 +459,11 @@ class Executor:
             last = strip_generics(c).split('::')[-1]
             cands = [fl for n, fl in self.prog.funcs.items() if n.split('::')[-1] == last and not fl[0].args and fl[0].name == n and 'promoted' not in n]
         if not cands:
+            last = strip_generics(c).split('::')[-1]
+            if last in self.prog.ext_consts and 'amq_protocol' in c:
+                ty, val = self.prog.ext_consts[last]
+                w_, s_ = INT_TYPES[ty]
+                return Int(val, w_, s_)
             return None
         f = cands[0][0]
         sub = State()
@@ -758,7 +763,8 @@ class Executor:
                         cell, path = self.resolve_place(st, frame, s.place)
                         self.write_path(st, cell, path, v)
                         continue
-                    raise Unsupported(f"bare variant {s.rvalue.extra} for destination type {dty} in {frame.func.name}")
+                    if vs is not None:
+                        raise Unsupported(f"bare variant {s.rvalue.extra} for destination type {dty} in {frame.func.name}")
                 v = self.eval_rvalue(st, frame, s.rvalue)
                 if s.rvalue.kind == 'discriminant' and not s.place.proj:
                     dty = frame.func.locals.get(s.place.local, 'isize')
